@@ -104,3 +104,90 @@ def c03_dynamic(pid, tier, seed, st, log, env):
     info["coverage"]["trace_families"] = fam
     info["coverage"]["traces_compared"] = traces
     return True, info
+
+
+# families whose cases are executed on the SSA interpreter: quick = a mixed bag shared by all SSA-level properties
+# (cached per tree in run/state.json), thorough = additionally the property's own family in full
+SSA_BAG = [("C09", 6), ("C10", 3), ("C07", 4), ("C08", 3), ("C16", 2), ("C02", 3), ("C06", 2), ("C13", 2), ("C14", 1), ("C15", 1), ("C11", 12), ("C19", 2), ("C01", 2)]
+SSA_OWN = {"C03": ["C01", "C02"], "C11": ["C11"], "C14": ["C14"], "C15": ["C15"], "C18": ["C12"], "C19": ["C19"]}
+
+
+def _ssa_compare(cases, env, timeout=7200):
+    import random
+    from . import engine
+    go = os.path.join(env["BUILD"], "edgo")
+    ssa = os.path.join(env["LEAN"], ".lake", "build", "bin", "ssarun")
+    rg, _ = engine.run_cases(cases, go, None, want_model=False)
+    rs, crash = engine.run_cases(cases, ssa, None, want_model=False, timeout=timeout)
+    lines = 0
+    diffs = []
+    for a, b in zip(rg, rs):
+        for i, x in enumerate(a.go):
+            if i >= len(a.case.lines):
+                break
+            if a.case.lines[i].startswith("I.globals"):
+                continue
+            lines += 1
+            y = b.go[i] if i < len(b.go) else "<no output>"
+            if x != y:
+                diffs.append({"case_lines": a.case.lines[:i + 1], "line": a.case.lines[i], "impl": x[:400], "ssa_interpreter": y[:400]})
+                break
+    return lines, diffs, crash
+
+
+def ssa_exec(pid, tier, seed, st, log, env):
+    """The SSA regenerated from /repo is *executed* by the Lean interpreter of EdVerif/Ssa/Sem.lean (`ssarun`) on generated
+    operation sequences and compared, line by line and limb by limb, with the real code. This is the correspondence check of
+    the SSA stratum (printer + semantics): the structural theorems and the constant-time theorem are about exactly this data."""
+    import random
+    import time
+    from . import gens
+    info = {"coverage": {}, "violations": [], "broken": []}
+    exe = os.path.join(env["LEAN"], ".lake", "build", "bin", "ssarun")
+    if not os.path.exists(exe):
+        info["broken"].append("ssarun (SSA interpreter driver) does not build against the regenerated Gen/Ssa.lean")
+        return False, info
+    key = f"ssa_exec:{seed}"
+    cached = st.get(key)
+    if cached is None:
+        cases = []
+        for fam, n in SSA_BAG:
+            cases.extend(gens.GENS[fam](random.Random(seed * 31 + 5), "quick")[:n])
+        t = time.time()
+        lines, diffs, crash = _ssa_compare(cases, env)
+        cached = {"cases": len(cases), "lines": lines, "diffs": diffs[:3], "crash": str(crash) if crash else None, "s": round(time.time() - t, 1)}
+        st[key] = cached
+        try:
+            tmp = os.path.join(env["RUN"], "state.json.tmp")
+            json.dump(st, open(tmp, "w"), indent=1)
+            os.replace(tmp, os.path.join(env["RUN"], "state.json"))
+        except Exception:
+            pass
+        log(f"ssarun vs real code: {cached['lines']} lines on {cached['cases']} cases, {len(diffs)} differences, {cached['s']}s")
+    else:
+        log(f"ssarun vs real code (cached for this tree): {cached['lines']} lines, {len(cached['diffs'])} differences")
+    info["coverage"]["ssa_interpreter_vs_impl"] = {k: cached[k] for k in ("cases", "lines", "s")}
+    diffs = list(cached["diffs"])
+    if tier == "thorough" and not diffs:
+        cases = []
+        for fam in SSA_OWN.get(pid, []):
+            cases.extend(gens.GENS[fam](random.Random(seed * 31 + 6), "quick"))
+        lines, d2, crash = _ssa_compare(cases, env)
+        info["coverage"]["ssa_interpreter_vs_impl_thorough"] = {"cases": len(cases), "lines": lines}
+        diffs.extend(d2[:3])
+    if diffs:
+        d = os.path.join(env["ROOT"], "evidence", "replay")
+        os.makedirs(d, exist_ok=True)
+        n = 0
+        while os.path.exists(os.path.join(d, f"{pid}-ssa{n}.json")):
+            n += 1
+        path = os.path.join(d, f"{pid}-ssa{n}.json")
+        x = diffs[0]
+        what = ("the SSA semantics does not cover the code" if "fault:" in x["ssa_interpreter"] else
+                "the SSA model (printer + semantics) and the real code disagree")
+        json.dump({"property": pid, "kind": "no-failing-input-found", "lines": x["case_lines"], "details": [x],
+                   "broken": [f"correspondence stream ssa-interpreter: {what}; the structural / constant-time theorems are about this SSA data"]},
+                  open(path, "w"), indent=1)
+        info["broken"].append(f"correspondence stream ssa-interpreter: {what} at `{x['line'][:80]}`: impl {x['impl'][:120]} / ssa {x['ssa_interpreter'][:120]}")
+        return False, info
+    return True, info
